@@ -87,6 +87,29 @@ func extEffect(o *types.Func, nargs int) (args []int, special string) {
 		return nil, ""
 	case "log":
 		return nil, ""
+	case "slices":
+		for _, pre := range []string{"Sort", "Reverse", "Compact", "Delete", "Insert", "Replace", "Clip", "Grow"} {
+			if strings.HasPrefix(name, pre) {
+				return []int{0}, ""
+			}
+		}
+		return nil, "" // Contains, Index, Equal, Clone, Max, BinarySearch, ...: read-only
+	case "maps":
+		switch name {
+		case "Copy", "DeleteFunc", "Insert":
+			return []int{0}, ""
+		}
+		return nil, "" // Keys/Values/All are order sources: see the SOURCES rule
+	case "encoding/binary":
+		if strings.HasPrefix(name, "Put") || name == "Write" || name == "Read" {
+			if sig.Recv() != nil {
+				return []int{1}, ""
+			}
+			return []int{0}, ""
+		}
+		return nil, ""
+	case "cmp", "math/bits", "encoding/base64", "unicode/utf16", "hash/fnv", "context", "iter", "html", "net/url", "mime":
+		return nil, ""
 	case "time", "math/rand":
 		return nil, ""
 	case "os/exec":
